@@ -654,8 +654,16 @@ func (s *scn) applyAdminSwap(st CStep) {
 		{"AppchainManager", "UpdateAppchain", []*pb.Arg{S(c.id), S("name-by-former-admin"), S("desc"), pb.Bytes(nil), S(x.Addr.String()), S("reason")}},
 		{"AppchainManager", "LogoutAppchain", []*pb.Arg{S(c.id), S("reason")}},
 	}
+	if s.bitAddr != "" {
+		// a rule the chain has not registered yet (deployed in the prologue): registering it, and making it the master, are
+		// the chain's own admin's business too
+		calls = append(calls, struct {
+			contract, name string
+			args           []*pb.Arg
+		}{"RuleManager", "RegisterRule", []*pb.Arg{S(c.id), S(s.bitAddr), S("url")}})
+	}
 	for j, cl := range calls {
-		if (st.N>>uint(j))&1 == 0 && j != st.B%len(calls) {
+		if (st.N>>uint(j%6))&1 == 0 && j != st.B%len(calls) {
 			continue
 		}
 		mi := find(cl.contract, cl.name)
